@@ -273,7 +273,7 @@ pub fn gen(rng: &mut Rng, idx: usize) -> Value {
     let mut pats: Vec<Vec<Value>> = registered.iter().map(|(f, _)| f.clone()).collect();
     for b in 1..napps { pats.push(prefix[b].clone()) }
     let mut reqs = vec![];
-    let pf = ["GET", "POST", "PUT", "DELETE", "PATCH", "HEAD", "OPTIONS", "FOO", "get", "TRACE"];
+    let pf = ["GET", "POST", "PUT", "DELETE", "PATCH", "HEAD", "OPTIONS", "FOO", "get", "TRACE", "PU", "ET", "GET, PUT", "HEA", ",", "OPTION", "T, P"];
     let simple = ["GET", "POST", "PUT", "DELETE", "PATCH", "HEAD", "OPTIONS"];
     let mut paths: Vec<Vec<Vec<&str>>> = vec![];
     for f in &pats {
